@@ -1,5 +1,5 @@
 """C14 — check configuration and MANIFEST entry."""
-CFG = {'scale_variants': False,
+CFG = {
  'assumptions': ['f64 inputs cross the boundary as bit patterns (non-finite values as nan/inf/-inf classes) and are '
                  'decoded to exact rationals; Rust f64 ops are IEEE-754',
                  'reading of the property text: an empty ring is an absent ring, a polygon with an empty exterior is '
